@@ -12,6 +12,7 @@ import (
 	hsync "github.com/celestiaorg/go-header/sync"
 
 	"verifsim/core"
+	"verifsim/simdisk"
 	"verifsim/simhdr"
 )
 
@@ -185,6 +186,12 @@ func runC16(s *core.Sim, tier string) RunInfo {
 		if startErr != nil {
 			// an expired network head is a legitimate reason to refuse to start
 			expired := time.Since(w.Ch.At(nh()).Time()) > p.trusting
+			if strings.Contains(startErr.Error(), simdisk.ErrInjected.Error()) {
+				// the datastore failed a write under the Store (injected window): Start may say so
+				hist = append(hist, "  start failed on an injected datastore error")
+				s.Probe("start-failed-on-disk-error")
+				continue
+			}
 			if !expired {
 				if strings.Contains(startErr.Error(), "beyond current head+1") {
 					at["reason"] = "new-tail-above-stored-head"
